@@ -34,7 +34,7 @@ def impl_rows(variant):
     return _impl[variant]
 
 
-EXTS = ["i", "im", "ia", "ima"]
+EXTS = ["i", "im", "ia", "ima", "iam"]          # "iam": NewParser(v, ExtA, ExtM), the same set in the other order
 
 
 def addr_for(r, variant):
